@@ -1,4 +1,5 @@
 import Postcard.Props.C06
+import Postcard.Props.EndToEnd
 -- property theorems of C06: every one must depend only on propext / Classical.choice / Quot.sound
 #print axioms Postcard.enc_u8_no_overflow
 #print axioms Postcard.cobs_flavor_eq_spec_lawful
@@ -16,3 +17,5 @@ import Postcard.Props.C06
 #print axioms Postcard.decode_encode_no_sentinel
 #print axioms Postcard.take_frames
 #print axioms Postcard.take_frames_iter
+#print axioms Postcard.to_slice_cobs_then_from_bytes_cobs
+#print axioms Postcard.to_hvec_cobs_then_from_bytes_cobs
